@@ -5,3 +5,13 @@ class AnalysisError(Exception):
     """The analysis could not be carried out (anchor vanished, unclassified
     construct, oracle missing).  Exit code 2 -- never a silent pass and never a
     claim of violation."""
+
+
+class StructuralViolation(AnalysisError):
+    """The construct a rule is about is ABSENT where its absence is itself the violation (the routine never notifies, the
+    hash is never computed, the gate is never closed).  The driver turns it into a violated obligation of the rule that
+    raised it (exit 1), unlike a plain AnalysisError (code the rule cannot read: exit 2)."""
+
+    def __init__(self, file: str, function: str, construct: str, statement: str, why: str = '') -> None:
+        super().__init__(f'{statement} ({why})' if why else statement)
+        self.file, self.function, self.construct, self.statement, self.why = file, function, construct, statement, why
